@@ -294,9 +294,14 @@ def r5(ctx, rep):
             kind = last_seg(str(pat_head(arm["pat"])))
             if kind not in ("Compute", "Input"):
                 continue
-            quant = [show(n["c"], maxdepth=8) for n in walk(arm["body"]) if n.get("k") == "if" and re.search(r"\.(all|any)\(", show(n["c"], maxdepth=10))]
-            writes = [n for n in walk(arm["body"]) if n.get("k") == "assign" and show(n["lhs"]).startswith("*")]
-            gets = [n for n in walk(arm["body"]) if n.get("k") == "mcall" and n["m"] in ("get", "contains_key", "remove") and show(n["r"]).endswith("redirects")]
+            # (a closure or nested fn of redirect_mappings called from the arm counts as part of the arm)
+            local_fns = {st["pat"]["n"]: st["init"] for st in walk(r["body"]) if st.get("k") == "local" and st["pat"].get("k") == "p_ident" and (st.get("init") or {}).get("k") == "closure"}
+            local_fns.update({st["name"]: st for st in walk(r["body"]) if st.get("k") == "item_fn" and "name" in st})
+            scope = [arm["body"]] + [local_fns[show(c["f"])] for c in walk(arm["body"]) if c.get("k") == "call" and show(c["f"]) in local_fns]
+            nodes = [n for sc in scope for n in walk(sc)]
+            quant = [show(n["c"], maxdepth=8) for n in nodes if n.get("k") == "if" and re.search(r"\.(all|any)\(", show(n["c"], maxdepth=10))]
+            writes = [n for n in nodes if n.get("k") == "assign" and show(n["lhs"]).startswith("*")]
+            gets = [n for n in nodes if n.get("k") == "mcall" and n["m"] in ("get", "contains_key", "remove") and show(n["r"]).endswith("redirects")]
             rep.check(not quant and bool(writes) and bool(gets), f"redirect:elementwise:{kind}",
                       f"the {kind} arm of redirect_mappings must rewrite each id that has a redirect, one by one (found quantified condition(s) {quant}): an input of which only some columns were "
                       "pulled into the new table keeps ids that are not visible in the outer pipeline", file=r["file"], line=arm["l"], fn=r["path"])
